@@ -86,7 +86,7 @@ def judge(chk, i, case, toks, modes, fault):
 
 def run(chk, tier, replay):
     chk.assumptions += ["Independent writer = ParquetWrite.tla/RefWriter.tla; it is validated against the independent TLA+ reader (MC_RefSelf: ParseFile(SerFile(d)) recovers d and all structural predicates hold)",
-                        "Codecs produced by the spec itself: UNCOMPRESSED (others are added as their TLA+ encoders exist)",
+                        "Codecs produced by the spec itself: UNCOMPRESSED, SNAPPY, LZ4 (Snappy.tla / Lz4.tla compressors), GZIP (stored deflate blocks) and ZSTD (raw-block frames, with and without content size)",
                         "Unsupported-feature files with a PLAIN payload under a foreign encoding tag are judged 'error or correct', as the property states"]
     rcommon.self_check(chk)
     modes = ("f", "m", "b")
